@@ -18,11 +18,13 @@ claim("C07", "typestate/ownership rules over AST+CFG: lock dominates store, sing
 
 
 
-claim("C02", "F-INIT definite attribute assignment over the class hierarchy; must-pass-through (dominance) of the input check in every apply",
+claim("C02", "F-INIT definite attribute assignment over the class hierarchy; dominance of the input check; mode-specialised abstract interpretation of every apply (capability subset of handled modes, mode-typed result domain); alias analysis for stores into the input buffer; accumulate-scatter pairing",
       "Decides, for every LinearOperator subclass found in the package (population computed from the class hierarchy), the "
-      "structural obligations behind 'outputs live on the declared target / advertised modes are handled / input is checked': "
-      "required attributes are assigned on every constructor path and the domain/mode check dominates every use of the input. "
-      "The inner-product identity and numerical action are not decided.", TRUST, "DESIGN.md section 4, C02")
+      "structural obligations behind 'outputs live on the declared target / advertised modes are handled / the adjoint of a gather "
+      "sums over duplicates / applying never modifies the input': required attributes are assigned on every constructor path, the "
+      "domain/mode check dominates every use of the input, every advertised mode reaches a valued return, locally constructed "
+      "results are built on _tgt(mode), no store targets (a view of) the input's buffer, and scatters through repeating indices "
+      "accumulate. The inner-product identity and the numerical action are not decided.", TRUST, "DESIGN.md section 4, C02")
 
 claim("C21", "who-may-call scan of randomness sources; CFG pairing (push/pop on every exit); context-manager protocol check; def-use typestate of JAX keys",
       "Decides the randomness discipline that makes a run a function of its seed: generators are only derived from the seed "
